@@ -259,6 +259,8 @@ pub struct VtCtx {
     /// number of guards that belong to enclosing frames (mini programs must not pop below)
     pub floor: usize,
     pub reentrant_depth: u32,
+    /// filler commands pushed by Bulk operations of this vthread (kept below the ring capacity)
+    pub bulk_used: usize,
 }
 
 fn payload_str(p: &Box<dyn Any + Send>) -> String {
@@ -1875,6 +1877,48 @@ impl VtCtx {
     #[cfg(not(fastrace_verif))]
     pub fn op_fill(&mut self, _leave: u8) {}
 
+    /// a backlog of n cheap commands (events under a child of an already committed root)
+    pub fn op_bulk(&mut self, n: u16) {
+        if self.reentrant_depth > 0 {
+            return;
+        }
+        // all Bulk operations of a vthread together stay well below the ring capacity, so that a
+        // backlog never turns into an overload episode (that is Fill's job)
+        let n = (n as usize).min(9000usize.saturating_sub(self.bulk_used));
+        if n == 0 {
+            return;
+        }
+        self.bulk_used += n;
+        self.w().h.label("bulk");
+        let u = self.w().uniq();
+        let Some(idx) = self.op_root(tid(1, 0xB111_0000 + u as u64, u), 0, true, 0, StrSeed { c: 0, l: 2 }, None, None) else {
+            return;
+        };
+        {
+            let mut w = self.w();
+            if let Some(c) = w.h.spans[idx].cid {
+                w.fill_cids.push(c);
+            }
+        }
+        let Some(root) = self.w().spans[idx].take() else { return };
+        let child = Span::enter_with_parent("fill-child", &root);
+        self.w().spans[idx] = Slot::Live(root);
+        self.finish_idx(idx);
+        NO_YIELD.with(|x| x.set(true));
+        for _ in 0..n {
+            LAST_FREE.with(|f| f.set(usize::MAX));
+            child.add_event(Event::new("f"));
+            // never fill the ring: leave at least 64 slots
+            let fb = LAST_FREE.with(|f| f.get());
+            if fb != usize::MAX && fb < 64 {
+                break;
+            }
+        }
+        NO_YIELD.with(|x| x.set(false));
+        std::mem::forget(child);
+        self.w().tick();
+    }
+
     pub fn op_trace_fn(&mut self, kind: u8) {
         self.w().h.label("trace_fn");
         match kind % 4 {
@@ -2028,6 +2072,7 @@ impl VtCtx {
             Op::Drive { a, entry } => adapters::drive(self, *a, *entry, false),
             Op::DropAdapter { a } => adapters::drop_adapter(self, *a),
             Op::Fill { leave } => self.op_fill(*leave),
+            Op::Bulk { n } => self.op_bulk(*n),
             Op::Burst { n, kind } => self.op_burst(*n, *kind),
             Op::Nest { n, span } => self.op_nest(*n, *span),
             Op::Exit => return false,
@@ -2148,16 +2193,18 @@ pub fn run_case(prog: &Program, opts: &ExecOpts) -> Hist {
     }
     *CURRENT.lock().unwrap() = Some(case.clone());
 
-    // spawn vthreads
-    let mut handles: Vec<Option<std::thread::JoinHandle<()>>> = Vec::new();
-    for id in 0..n + 2 {
+    // vthreads are spawned lazily, when first scheduled: a vthread that is born after another one
+    // exited really is a new OS thread started after the old one ended (stack and thread-local
+    // storage may be reused by the OS, as in programs with short-lived worker threads)
+    let mut handles: Vec<Option<std::thread::JoinHandle<()>>> = (0..n + 2).map(|_| None).collect();
+    let mut spawned = vec![false; n + 2];
+    let spawn_vt = |id: usize| -> std::thread::JoinHandle<()> {
         let case2 = case.clone();
-        let hnd = std::thread::Builder::new()
+        std::thread::Builder::new()
             .name(format!("vt{}", id))
             .spawn(move || vt_main(case2, id, n))
-            .expect("spawn");
-        handles.push(Some(hnd));
-    }
+            .expect("spawn")
+    };
 
     // scheduler loop
     let mut state = vec![VtState::Runnable; n + 2];
@@ -2213,6 +2260,10 @@ pub fn run_case(prog: &Program, opts: &ExecOpts) -> Hist {
                     break;
                 }
                 born[vt] = true;
+            }
+            if !spawned[vt] {
+                spawned[vt] = true;
+                handles[vt] = Some(spawn_vt(vt));
             }
             let y = case.baton.run(vt);
             {
@@ -2276,6 +2327,10 @@ pub fn run_case(prog: &Program, opts: &ExecOpts) -> Hist {
     // stop the collector vthread
     case.w().collector_stop = true;
     if state[collector] != VtState::Exited {
+        if !spawned[collector] {
+            spawned[collector] = true;
+            handles[collector] = Some(spawn_vt(collector));
+        }
         let y = case.baton.run(collector);
         assert_eq!(y, Yield::Exiting, "collector did not stop");
         handles[collector].take().unwrap().join().expect("collector panicked");
@@ -2367,6 +2422,7 @@ fn vt_main(case: Arc<Case>, id: usize, n: usize) {
             guards: vec![],
             floor: 0,
             reentrant_depth: 0,
+            bulk_used: 0,
         };
         if id == reaper {
             reaper_main(&mut cx);
